@@ -20,7 +20,8 @@ from harness.common import coq_bool, coq_list, coq_opt, coq_z
 D = decimal.Decimal
 PREAMBLE = 'From AB Require Import Prelude Cost Txn CostRun.'
 
-NUMS = [D('0'), D('1'), D('2.5'), D('-3'), D('12.34'), D('100'), D('7')]
+NUMS = [D('0'), D('1'), D('2.5'), D('-3'), D('12.34'), D('100'), D('7'),
+        D('123456789012345678901234567890.123456789'), D('-98765432109876543210987654321098765.5')]   # > 28 digits, negative
 CURS = ['USD', 'CAD', 'EUR', 'AB', 'X.Y-Z9']
 DATES = [datetime.date(2000, 1, 1), datetime.date(1999, 12, 31), datetime.date(2024, 2, 29)]
 LABELS = ['', 'foo', 'a "q" \\ b', 'lot 1']
@@ -34,6 +35,9 @@ SIG_COST_REPARSE = 'C09:cost:reparse'
 SIG_COST_RAW_ATOMIC = 'C09:cost:raw-refusal-not-atomic'
 SIG_COST_WHOLE = 'C09:cost:whole-cost-assignment'
 SIG_SEPARATE = 'C09:cost:separate-number-currency-components'
+SIG_DUP = 'C09:cost:duplicate-components'
+SIG_NORMAL_LOST = 'C09:cost:normal-form-lost'
+SIG_SLOTS = 'slots-correspondence'
 SIG_TXN = 'C09:txn:pair-model'
 SIG_TXN_REPARSE = 'C09:txn:reparse'
 SIG_TXN_FRAME = 'C09:txn:siblings'
@@ -92,8 +96,13 @@ def gen_cost_text(rng) -> tuple[str, bool]:
     elif rng.random() < 0.5:
         # number and currency as two components, anywhere among the others (known finding; monitored)
         pieces += [rng.choice(['12.34', '1', '(1 + 1.5)']), rng.choice(['USD', 'CAD'])]
-    else:
+    elif rng.random() < 0.5:
         pieces.append(rng.choice(ODD_PIECES))
+    else:
+        # a repeated date / label / asterisk next to any amount-like piece (known finding; monitored)
+        a = rng.choice(AMOUNT_PIECES)[0]
+        pieces += ([a] if a else []) + rng.choice([['2000-01-01', '1999-12-31'], ['"foo"', '"lot 1"'], ['*', '*'],
+                                                   ['2024-02-29', '2024-02-29']])
     if rng.random() < 0.5:
         pieces.append(rng.choice(['2000-01-01', '1999-12-31']))
     if rng.random() < 0.5:
@@ -217,17 +226,35 @@ def observe_rawcost(node):
             'comps': [enc_comp(c) for c in node.raw_components]}
 
 
+def normal_obs(obs) -> bool:
+    """Cost.normal_b on an observed implementation state (cross-checked against normal_b in check_ccase)."""
+    kinds = [c[0] for c in obs['comps']]
+    return (sum(kinds.count(k) for k in ('KCompound', 'KAmount', 'KNumber', 'KCurrency')) <= 1
+            and kinds.count('KDate') <= 1 and kinds.count('KLabel') <= 1 and kinds.count('KAsterisk') <= 1)
+
+
 def is_separate(obs) -> bool:
-    """A bare number and a bare currency as two components, no amount, no compound (known finding)."""
+    """A bare number and a bare currency as two components, no amount, no compound, nothing else repeated."""
     kinds = [c[0] for c in obs['comps']]
     return (kinds.count('KNumber') == 1 and kinds.count('KCurrency') == 1
-            and 'KAmount' not in kinds and 'KCompound' not in kinds)
+            and 'KAmount' not in kinds and 'KCompound' not in kinds
+            and kinds.count('KDate') <= 1 and kinds.count('KLabel') <= 1 and kinds.count('KAsterisk') <= 1)
 
 
-def run_cost_walk(text: str, ops, listed: bool):
+def shape_signature(obs):
+    """None for a normal state; else the known-finding class of the parsed shape."""
+    if normal_obs(obs):
+        return None
+    return SIG_SEPARATE if is_separate(obs) else SIG_DUP
+
+
+def run_cost_walk(text: str, ops, listed=None):
     """Run one assignment sequence on the real CostSpec.  Returns (init observation, steps, failure|None).
-    The record-model monitor runs when the initial form is one the property lists (`listed`), when it is the
-    separate number + currency shape, and from any form after an accepted whole-cost assignment."""
+    The record-model monitor runs from every initial form.  Whether the walk is inside the property's
+    quantifier is computed from the *observed* state (normal_obs), never from how the text was generated:
+    a walk whose origin (the parsed state, or the last accepted whole-cost assignment) is not normal reports
+    every failure under the known-finding class of that shape; from a normal origin every observed state must
+    be normal again and agree with the record model."""
     import copy
     models, parser, _ = impl()
     posting = parser.parse(text, models.Posting)
@@ -237,9 +264,7 @@ def run_cost_walk(text: str, ops, listed: bool):
     init = observe_cost(cs)
     ref = dict(zip(COST_PROPS, init['getters']))
     steps, failure = [], None
-    separate_from_parse = is_separate(init)
-    monitored = listed or separate_from_parse
-    saw_cur_and_num = separate_from_parse
+    origin_sig = shape_signature(init)
     for k, op in enumerate(ops):
         prop, vc = op[0], op[1]
         mode = op[2] if len(op) > 2 else None
@@ -269,7 +294,7 @@ def run_cost_walk(text: str, ops, listed: bool):
         obs['assigned'] = assigned
         steps.append(obs)
         kinds = [c[0] for c in obs['comps']]
-        where = {'kind': 'cost', 'text': text, 'ops': ops[:k + 1], 'listed': listed}
+        where = {'kind': 'cost', 'text': text, 'ops': ops[:k + 1]}
         unchanged = (text_of(posting) == before_text and
                      (obs['brace'], obs['comps']) == (before_obs['brace'], before_obs['comps']))
         donor_same = (text_of(donor), observe_cost(donor.cost)) == donor_snap and \
@@ -278,7 +303,7 @@ def run_cost_walk(text: str, ops, listed: bool):
             continue
         if mode == 'attached':
             # C19 for the raw setters: an attached node is refused and nothing (target, donor) has changed;
-            # demanded from every initial form, listed or not
+            # demanded from every state, normal or not
             if res != 1 or not unchanged or not donor_same:
                 failure = (SIG_COST_RAW_ATOMIC,
                            f'{prop} = <node attached to another posting> on {before_text.strip()!r}: result code {res} '
@@ -292,22 +317,23 @@ def run_cost_walk(text: str, ops, listed: bool):
             if res == 0:
                 # from here on the group is what the assigned cost denotes, whatever the form was before
                 ref = dict(zip(COST_PROPS, assigned_getters))
-                monitored, separate_from_parse, saw_cur_and_num = True, False, False
+                origin_sig = shape_signature(assigned)
             want_res = 0
         else:
-            if not monitored:
-                continue
             ref, want_res = ref_apply(ref, RAW.get(prop, prop), vc)
-        saw_cur_and_num = saw_cur_and_num or ('KCurrency' in kinds and 'KNumber' in kinds)
-        # one stable class for everything that goes wrong on / after the separate-components shape
-        shape_sig = None
-        if saw_cur_and_num:
-            shape_sig = SIG_SEPARATE if separate_from_parse else SIG_D11
+        # one stable class for everything that goes wrong on / after a non-normal origin; from a normal
+        # origin a non-normal state is itself a failure (the invariant of C09_cost_refines)
+        shape_sig = origin_sig
+        if shape_sig is None and not normal_obs(obs):
+            shape_sig = SIG_D11 if ('KCurrency' in kinds and 'KNumber' in kinds) else SIG_NORMAL_LOST
         if res != want_res or obs['getters'] != ref_tuple(ref):
             failure = (shape_sig or (SIG_COST_WHOLE if prop == 'raw_cost' else SIG_COST),
                        f'after {fmt_ops(ops[:k + 1])} on {text.strip()!r}: getters/result '
                        f'{obs["getters"]}/{res}, record model says {ref_tuple(ref)}/{want_res} '
                        f'(printed: {text_of(posting).strip()!r})', where)
+        elif origin_sig is None and shape_sig is not None:
+            failure = (shape_sig, f'after {fmt_ops(ops[:k + 1])} on {text.strip()!r} the cost has more than one '
+                                  f'component of a kind: {text_of(posting).strip()!r}', where)
         elif res != 0 and not unchanged:
             failure = (shape_sig or SIG_COST_ATOMIC,
                        f'refused {prop} assignment changed the model: {before_text.strip()!r} -> '
@@ -338,6 +364,11 @@ DIRECTED = [
     (P_ + '{12.34, USD}', False, [['number_total', 5]]),
     (P_ + '{{USD, 2000-01-01, 12.34}}', False, [['number_per', 5]]),
     (P_ + '{"foo", 12.34, *, USD}', False, [['raw_currency', 2, 'fresh'], ['currency', None]]),
+    # other repeated components (known finding C09:cost:duplicate-components)
+    (P_ + '{2000-01-01, 1999-12-31}', False, [['date', None]]),
+    (P_ + '{*, *}', False, [['merge', False]]),
+    (P_ + '{1, 2.5}', False, [['number_per', None]]),
+    (P_ + '{{"foo", 1 USD, "lot 1"}}', False, [['label', None]]),
 ]
 
 
@@ -394,7 +425,7 @@ def coq_ccase(fixed, listed, init, ops, steps):
     body = coq_list(f'({coq_cstep(op, s)}, mkcobs {coq_z(s["res"])} {coq_cost(s)} {coq_spec(s["getters"])})'
                     for op, s in zip(ops, steps))
     fx, late = fixed
-    return (f'mkccase {coq_bool(fx)} {coq_bool(late)} {coq_bool(listed)} {coq_cost(init)} '
+    return (f'mkccase {coq_bool(fx)} {coq_bool(late)} {coq_bool(normal_obs(init))} {coq_cost(init)} '
             f'{coq_spec(init["getters"])} {body}')
 
 
@@ -457,7 +488,7 @@ def check_cost(ctx: common.Ctx, fixed: bool):
                  nontrivial=any(s['res'] for s in steps) or any(s['brace'] != init['brace'] for s in steps)
                  or any([c[0] for c in s['comps']] != [c[0] for c in init['comps']] for s in steps))
         ctx.dist('cost_init=' + init['brace'] + ':' + ('+'.join(al) or 'none') +
-                 (':listed' if listed else (':separate' if is_separate(init) else ':odd')))
+                 (':normal' if normal_obs(init) else (':separate' if is_separate(init) else ':duplicates')))
         ctx.dist(f'cost_init_other_components={len(init["comps"]) - len(al)}')
         for op, s in zip(ops, steps):
             ctx.dist(f'cost_op={op[0]}:{(op[2] if len(op) > 2 else ("None" if op[1] is None else "value"))}')
@@ -725,8 +756,10 @@ def domain(cls_name: str):
         'Date': [datetime.date(2012, 12, 31), datetime.date(1987, 6, 5)],
         'Account': ['Assets:New', 'Expenses:A1:B-c'],
         'Currency': ['CAD', 'X.Y-Z9'],
-        'NumberExpr': [D('42'), D('-1.25'), D('0')],
-        'Tolerance': [D('0.5'), D('0')],
+        # more than 28 significant digits (no rounding to the decimal context) and negative values
+        'NumberExpr': [D('42'), D('-1.25'), D('0'), D('123456789012345678901234567890.123456789'), D('-98765432109876543210987654321098765.5')],
+        'Tolerance': [D('0.5'), D('0'), D('123456789012345678901234567890.123456789')],
+        'MetaValue': ['text', D('4.5'), D('-98765432109876543210987654321098765.5'), datetime.date(2001, 2, 3), True, False],
         'EscapedString': ['', 'new "s" \\', 'two\nlines'],
         'BlockComment': ['fresh', 'two\nlines', ''],
         'InlineComment': ['fresh', ''],
@@ -756,6 +789,8 @@ def value_props(inst):
             elif isinstance(desc, (vp.optional_string_property, vp.optional_indented_string_property,
                                    vp.optional_decimal_property, vp.optional_date_property)):
                 out.append((name, 'optional', desc._inner_type.__name__))
+            elif type(desc).__name__ == 'optional_meta_value_property':
+                out.append((name, 'optional', 'MetaValue'))
     return out
 
 
@@ -895,6 +930,133 @@ def check_generic(ctx: common.Ctx):
     ctx.count('generic_classes', len(classes))
 
 
+# ---- correspondence of the value-property model (Txn.v, Section ValueProps) ---------------------------
+def slot_descs(inst):
+    """The independent value properties of an instance that the slot model covers: (name, kind, descriptor,
+    domain).  Dependent groups (cost, payee/narration) and the type-switching meta value are not slots."""
+    from autobean_refactor.models.internal import value_properties as vp
+    cls = type(inst).__name__
+    if cls == 'CostSpec':
+        return []
+    out, seen = [], set()
+    for klass in type(inst).__mro__:
+        for name, desc in vars(klass).items():
+            if name in seen or name.startswith('_') or name.startswith('raw_') or (cls, name) in SKIP_SET:
+                continue
+            seen.add(name)
+            if name == 'indent':
+                continue   # documented dependency: the codec of the indented comment slots takes the indent
+            if isinstance(desc, vp.required_value_property):
+                kind, inner = 'required', type(desc._inner_property.__get__(inst))
+            elif isinstance(desc, (vp.optional_string_property, vp.optional_indented_string_property,
+                                   vp.optional_decimal_property, vp.optional_date_property)):
+                kind, inner = 'optional', desc._inner_type
+            else:
+                continue
+            dom = domain(inner.__name__)
+            if dom:
+                out.append((name, kind, desc, dom, inner))
+    return out
+
+
+def fresh_text(inst, desc, inner, v):
+    """Text of inner_type.from_value(v) as the property would build it (the slot's fmt)."""
+    from autobean_refactor.models.internal import value_properties as vp
+    if isinstance(desc, vp.optional_indented_string_property):
+        return text_of(inner.from_value(v, indent=desc._indent_property.__get__(inst).value))
+    return text_of(inner.from_value(v))
+
+
+def run_slot_walk(sample, path, steps_spec):
+    """steps_spec: list of (slot index, value index | None).  Returns the Coq case or None."""
+    models, parser, _ = impl()
+    f = parser.parse(sample, models.File)
+    inst = locate(f, path)
+    descs = slot_descs(inst)
+    if not descs:
+        return None
+    ids, keep = {}, []
+
+    def node_id(n):
+        if id(n) not in ids:
+            ids[id(n)] = len(ids)
+            keep.append(n)          # keep it alive: identities must not be recycled
+        return ids[id(n)]
+
+    def observe():
+        slots, getters = [], []
+        for name, kind, desc, dom, inner in descs:
+            raw = desc._inner_property.__get__(inst)
+            slots.append(None if raw is None else (node_id(raw), text_of(raw)))
+            getters.append(code(dom, getattr(inst, name)))
+        return slots, getters
+    ndom = [len(d[3]) for d in descs]           # assignments draw from the original domain only
+    table = []
+    for i, (name, kind, desc, dom, inner) in enumerate(descs):
+        # the value the document starts with gets a code of its own, with the text it has in the document
+        raw, v0 = desc._inner_property.__get__(inst), getattr(inst, name)
+        if raw is not None and code(dom, v0) == UNKNOWN:
+            descs[i] = (name, kind, desc, list(dom) + [v0], inner)
+            table.append((i, len(dom), text_of(raw)))
+        for c, v in enumerate(dom):
+            table.append((i, c, fresh_text(inst, desc, inner, v)))
+    init, _ = observe()
+    n0 = len(ids)
+    out = []
+    for si, vi in steps_spec:
+        si %= len(descs)
+        name, kind, desc, dom, inner = descs[si]
+        if vi is None and kind == 'required':
+            vi = 0
+        v = None if vi is None else dom[vi % ndom[si]]
+        setattr(inst, name, v)
+        slots, getters = observe()
+        out.append((kind == 'required', si, None if vi is None else vi % ndom[si], slots, getters))
+    return coq_vcase(table, init, n0, out), [d[0] for d in descs]
+
+
+def coq_oslot(x):
+    return coq_opt(None if x is None else f'({coq_z(x[0])}, {common.coq_str(x[1])})')
+
+
+def coq_vcase(table, init, n0, steps):
+    tb = coq_list(f'({i}%nat, {coq_z(c)}, {common.coq_str(t)})' for i, c, t in table)
+    st = coq_list(f'mkvstep {coq_bool(req)} {si}%nat {oz(vi)} {coq_list(coq_oslot(x) for x in slots)} '
+                  f'{coq_list(oz(g) for g in getters)}' for req, si, vi, slots, getters in steps)
+    return f'mkvcase {tb} {coq_list(coq_oslot(x) for x in init)} {coq_z(n0)} {st}'
+
+
+def check_slots(ctx: common.Ctx):
+    models, parser, _ = impl()
+    cases, metas = [], []
+    for sample in SAMPLES:
+        f = parser.parse(sample, models.File)
+        for path, inst in all_instances(f):
+            if isinstance(inst, models.File) or not slot_descs(inst):
+                continue
+            for _ in range(ctx.scale(2, 6)):
+                spec = [(ctx.rng.randrange(64), None if ctx.rng.random() < 0.3 else ctx.rng.randrange(64))
+                        for _ in range(ctx.rng.choice([2, 4, 6]))]
+                try:
+                    r = run_slot_walk(sample, path, spec)
+                except Exception as e:
+                    ctx.fail('tie', 'slot-walk-crashed', f'{type(e).__name__}: {e} on {type(inst).__name__} {spec}')
+                    continue
+                if r is None:
+                    continue
+                ctx.case({'slots': type(inst).__name__, 'props': r[1], 'steps': spec}, nontrivial=True)
+                ctx.dist(f'slot_class={type(inst).__name__}')
+                cases.append(r[0])
+                metas.append((sample, path, spec, type(inst).__name__))
+    bad = ctx.run_coq_cases('slots', PREAMBLE, 'vcase', 'check_vcase', cases, chunk=60)
+    ctx.count('traces_validated_against_impl', len(cases) - len(bad))
+    for i in bad[:3]:
+        sample, path, spec, cls = metas[i]
+        ctx.fail('corr', SIG_SLOTS, f'the value-property slot model and {cls} disagree (node identity, text or getter) '
+                                    f'after the assignments {spec}',
+                 {'kind': 'slots', 'sample': sample, 'path': [list(p) for p in path], 'spec': spec})
+
+
 def enc_value(v):
     if isinstance(v, D):
         return {'decimal': str(v)}
@@ -919,6 +1081,7 @@ def body(ctx: common.Ctx):
     check_from_value(ctx)
     check_txn(ctx)
     check_generic(ctx)
+    check_slots(ctx)
 
 
 def run(ctx: common.Ctx):
@@ -934,6 +1097,8 @@ def run(ctx: common.Ctx):
         'RepeatedNodeWrapper.insert/append/pop/__setitem__ on the cost components are the plain list operations '
         '(C03/C07); the model sees only component kinds, order and values',
         'value codecs (Decimal/str/date <-> token text) are C12/C13; values are opaque codes in the model',
+        'the record-model monitor decides normality on the observed implementation state at every step (cross-checked '
+        'with Cost.normal_b); origins with repeated components report under the two known-finding signatures',
         'lark gives a lone transaction string to the first _optional_string (observed on every parsed case)',
         'Cost.v transcribes cost_spec.py with fixes/costspec-currency-onto-number.patch applied; against a tree '
         'without the patch the correspondence uses the unrepaired variant (apply_gen false), which '
@@ -983,6 +1148,11 @@ def replay(ctx, path):
         r = generic_one(w['sample'], tuple(tuple(p) for p in w['path']), w['prop'], dec_value(w['value']))
         print('monitor:', r)
         return 1 if r else 0
+    if kind == 'slots':
+        r = run_slot_walk(w['sample'], tuple(tuple(p) for p in w['path']), [tuple(x) for x in w['spec']])
+        bad = ctx.run_coq_cases('replay', PREAMBLE, 'vcase', 'check_vcase', [r[0]])
+        print(r[1], 'model/implementation agree' if not bad else 'model/implementation DISAGREE')
+        return 1 if bad else 0
     if kind == 'from_value':
         models, _, _ = impl()
         a = w['args']
